@@ -123,7 +123,7 @@ META = {
     "C09": {
         "level": "exploration",
         "evaluations": ["checks_run"],
-        "required": ["verdict_pass", "verdict_only_generated", "family:failfiles", "family:failing", "family:realT", "family:flaky-failfile", "deadline_all_skipped", "realT_count_runs", "planted_fail_files_that_are_symlinks"],
+        "required": ["verdict_pass", "verdict_only_generated", "family:failfiles", "family:failing", "family:realT", "family:flaky-failfile", "deadline_all_skipped", "realT_count_runs", "planted_fail_files_that_are_symlinks", "deadline_short_failfile_replayed"],
         "show": ["checks_run", "verdict_pass", "verdict_only_generated", "invocations"],
         "rule": "never-failing properties with skip pattern sigma in {never, always, every j-th, data-dependent 5-95%, 9 of 10} x -rapid.checks N in "
                 "{1,2,3,5,17,100,1000}: count completed/skipped invocations by stream kind against TB verdict (exactly N completed then stop, or "
@@ -335,7 +335,7 @@ META = {
         "level": "exploration",
         "race": True,
         "evaluations": ["rounds"],
-        "required": ["rounds", "concurrent_checks", "draws_compared", "canary_race_reports", "ctor:Deferred", "ctor:Custom", "ctor:StringMatching", "ctor:Filter", "fuzz_target_rounds", "failing_together_rounds"],
+        "required": ["rounds", "concurrent_checks", "draws_compared", "canary_race_reports", "ctor:Deferred", "ctor:Custom", "ctor:StringMatching", "ctor:Filter", "fuzz_target_rounds", "failing_together_rounds", "descriptions_compared"],
         "show": ["rounds", "concurrent_checks", "draws_compared", "race_reports_distinct", "canary_race_reports"],
         "rule": "binary built with -race; every round builds a FRESH random generator tree (biased to lazily initialised nodes: Deferred, recursive trees, "
                 "Custom, Filter, Make, regexp generators with a per-round unique pattern) and releases 8-16 concurrent Checks (own TB each, same -rapid.seed) "
@@ -419,7 +419,7 @@ _MORE8 = {
 _MORE9 = {
     "C03": "Half of the Permutation leaves are drawn from directly (typed, inside a Custom function) so that rapid computes the generator's label itself; StringOfN over non-rune Int32 generators also has byte limits, and every rune of the result must be one the element generator can produce; RuneFrom lists with unencodable runes must stay unmodified.",
     "C04": "Every rejection-heavy regexp (empty-width assertions), as StringMatching and as SliceOfBytesMatching, is recorded, pruned and replayed on its own over 60 seeds (not only when a random program happens to contain one).",
-    "C08": "A fifth step statistic under -short (-rapid.steps=40: mean 20 in every Repeat call, however many came before).",
+    "C08": "The StateMachineActions type carries helper methods (niladic, with results, variadic, two parameters, promoted from an embedded struct): none of them is an action. A fifth step statistic under -short (-rapid.steps=40: mean 20 in every Repeat call, however many came before).",
     "C09": "The fail-file family also runs with -rapid.checks=0 and with -short leaving no random test case (the files are replayed all the same); two skip patterns skip before the first draw.",
     "C10": "A Repeat action registers a cleanup and then skips.",
     "C13": "One tail run in sixteen appends more than 64 KiB of unconsumed bytes.",
@@ -431,9 +431,10 @@ _MORE10 = {
     "C03": "Family long: typed generators of long values (67 to 5000 bytes / elements: byte slices, regexp byte slices and strings, strings, integer slices, maps) drawn with the draw log on and off (MakeFuzz, Check with and without -rapid.v, the final replay of a failing Check); every value is checked when returned and again when the test case ends.",
     "C04": "Family fuzz-history: one MakeFuzz target is fed 40 inputs in a row (recordings cut short, extended, with hostile words); each input must end and draw as on a fresh target. Family abuse-history: ONE generator instance (6-16 nested combinators of every kind over an often-rejecting leaf) records 24 seeds, then 2500 other seeds (a third of the draws give up and unwind through all frames) and 200 truncated replays, then the 24 seeds again: same values, same bits, same replays.",
     "C06": "A tenth of the histories reach the fail file through a symbolic link (the file is moved into a store before the next run); a fifth are 'upgrade' histories: after the replays the saved file is turned into another version's, the test fails again with the flags of run 1 - that failure must be persisted afresh (exactly one file of the current version, named in the message, holding the minimised case) and replayed first by the run after it.",
-    "C09": "A third of the planted fail files are symbolic links into a store.",
+    "C09": "A third of the planted fail files are symbolic links into a store; the fail-file family also plants 24, 45, 70 and 130 files (every one is replayed). A child process with a real *testing.T and go test -timeout 8s must still replay a fail file that falsifies the property first.",
+    "C14": "In a fifth of the scenarios the workers use a lock of the user's own: held around the non-logging methods of T, and taken by the String method of a value passed to Log/Logf/Errorf (lock order: user lock, then T's; a library that formats arguments while holding T's lock deadlocks, which the hang watchdog reports).",
     "C12": "Two more ways of failing: a panic with a freshly allocated wrapped error and with a pointer to a struct holding further pointers (same text in every execution, other addresses).",
-    "C15": "Family fuzz-target: ONE function returned by MakeFuzz is called from 6-15 parallel sub-tests at once, each with its own input (a recording made alone on an equal tree); status and draws of every call are those of a replay of its input. Family failing-together: 3-7 FAILING checks (a threshold each) at once over one shared generator on same-named test objects; each executes exactly the test cases (search, reproduction, every minimisation attempt, final replay) it executes alone.",
+    "C15": "Family fuzz-target: ONE function returned by MakeFuzz is called from 6-15 parallel sub-tests at once, each with its own input (a recording made alone on an equal tree); status and draws of every call are those of a replay of its input. After every round the description (String) of the shared generator and of every generator the checks built on it must equal that of a freshly built equal tree. Family failing-together: 3-7 FAILING checks (a threshold each) at once over one shared generator on same-named test objects; each executes exactly the test cases (search, reproduction, every minimisation attempt, final replay) it executes alone.",
     "C17": "The descriptor-limited child plants 800 unusable entries (empty files, directories, binary files starting with control bytes, text) in front of the usable one and its property opens files of its own. In the explicit families a problem with a fail file must never be an ERROR of the test.",
     "C11": "Family shared-skip-site: non-fatal failure when a > ta, then ONE Skip statement reached when b > tb by failing and non-failing cases alike; the test case presented after minimisation must be one that signalled (C01 oracle). Family deep-abandon: a 600-case Check in which every second test case is abandoned 8-16 generator levels deep; the property never signals a failure and must pass.",
     "C13": "One input in seven is TEXT (the text of a well-formed fail file of this version holding a recording of the same property, a go fuzz corpus header, hex lines, JSON): bytes like any others.",
